@@ -176,6 +176,11 @@ end Galene.Loss
 
 namespace Galene.Loss
 
+/-- insert `n` after the elements that are not farther from the cutoff (stable insertion sort step) -/
+def insertNack (cutoff n : Nat) : List Nat → List Nat
+  | [] => [n]
+  | m :: ms => if sub16 m cutoff ≤ sub16 n cutoff then m :: insertNack cutoff n ms else n :: m :: ms
+
 /-- `nackWriter` (rtpconn/rtpwriter.go:313-368): which buffered subscriber NACKs are
 shipped upstream.  `kf` = `cache.Keyframe()`, `last` = `cache.Last()`, `inCache n` =
 `cache.Get(n, nil) > 0`.  Returns the seqnos sent, in the order sent. -/
@@ -188,8 +193,6 @@ def nackWriter (kf last : Option Nat) (inCache : Nat → Bool) (nacks : List Nat
       | none => sub16 l 256
     let kept := nacks.filter (fun n => sub16 n cutoff < 32768 && sub16 l n < 32768 && !inCache n)
     -- sort.Slice by (n - cutoff); insertion sort is enough for the model
-    kept.foldl (fun acc n =>
-      let (a, b) := acc.span (fun m => sub16 m cutoff ≤ sub16 n cutoff)
-      a ++ n :: b) []
+    kept.foldl (fun acc n => insertNack cutoff n acc) []
 
 end Galene.Loss
